@@ -46,7 +46,7 @@ Cutoffs == {<<1, 2>>, <<5, 8>>, <<3, 4>>, <<1, 1>>}
 -----------------------------------------------------------------------------
 (* transcriptions                                                           *)
 
-L16(V, n) == Num(BrOf(V, n).len) \div 65536
+L16(V, n) == Num(BrOf(V, n).len) \div 32768      \* in units of 1/32, like CalcProps.SumLen16
 
 \* Consensus: the loop over the branches of one tree (the two root branches of a rooted tree are the
 \* same bipartition: counted once, lengths summed)
